@@ -201,4 +201,11 @@ theorem transaction_image {i r : List Char} {t : Transaction} (hi : TextOK i) (h
     obtain ⟨p', hp', rfl⟩ := List.mem_map.mp hp
     exact (hpostsOK p' hp').2 v hvp
 
+example : (match transaction "2024/01/02=2024/01/03 ! (c1) Shop  ; :a:b:\n ; k: v\n A:B  -1 USD\n C\n".toList with
+    | .ok t [] => t ==
+        { date := ⟨2024, 1, 2⟩, effectiveDate := some ⟨2024, 1, 3⟩, clear := .pending, code := some "c1", payee := "Shop",
+          metadata := [.wordTags ["a", "b"], .keyValue "k" (.text "v")],
+          posts := [{ account := "A:B", amount := some { amount := .amt ⟨true, 1, 0, none⟩ "USD" } }, { account := "C" }] }
+    | _ => false) = true := by decide +kernel
+
 end Okane.C05Image
